@@ -1,4 +1,91 @@
-import LecModel
+/-
+  C02 — Decode and reconstruct never succeed with wrong bytes (no silent corruption).
+
+  `decode_exact_or_error`, `reconstruct_exact_or_error`
+        for ANY list of fragments drawn from one encoded stripe — too few, beyond tolerance,
+        duplicated, any order — and with or without forced checks, the result is the exact
+        original data (respectively the exact original fragment) or a negative error code:
+        never `.ok` of other bytes and never `Fail.crash` (the model's marker for an
+        out-of-bounds access of the C code: negative pivot index, short buffer, …).
+  `*_rs`  Reed–Solomon instance, every k ≥ 1, k+m ≤ 32.
+  (`*_xor` for the generated flat-XOR tables is added by LecProofs.XorContracts.)
+  Reads and writes outside the caller's buffers by the compiled code are runtime behaviour:
+  the harness runs every case under ASan/UBSan with canaries around the output buffer.
+-/
+import LecProofs.Instances
 import LecGen
 namespace LecProps.C02
+open Lec
+
+theorem decode_exact_or_error (env : Env) (be : Backend) (i : Inst) (data : Bytes) (enc frags : List Bytes)
+    {bsOK : Nat → Prop} (hE : EncodeOK be i.k i.m bsOK) (hS : DecodeSound be i.k i.m bsOK)
+    (hneg : ∀ d p ms b e, be.decode d p ms b = .error (.rc e) → e < 0)
+    (hbs : bsOK (blockSize i data.length)) (hok : FrontOK env i data.length)
+    (henc : encode env be i data = .ok enc) (hsub : ∀ f ∈ frags, f ∈ enc) (force : Bool) :
+    decode env be i frags (80 + blockSize i data.length) force = .ok data ∨
+    ∃ e, decode env be i frags (80 + blockSize i data.length) force = .error (.rc e) ∧ e < 0 :=
+  decode_sound env be i data enc frags hE hbs hok henc hsub hS hneg force
+
+theorem reconstruct_exact_or_error (env : Env) (be : Backend) (i : Inst) (data : Bytes) (enc frags : List Bytes)
+    {bsOK : Nat → Prop} (hE : EncodeOK be i.k i.m bsOK) (hS : DecodeSound be i.k i.m bsOK)
+    (hneg : ∀ d p ms dst b e, be.reconstruct d p ms dst b = .error (.rc e) → e < 0)
+    (hbs : bsOK (blockSize i data.length)) (hok : FrontOK env i data.length)
+    (henc : encode env be i data = .ok enc) (hsub : ∀ f ∈ frags, f ∈ enc) (dest : Int) :
+    reconstruct env be i frags (80 + blockSize i data.length) dest = .ok (enc.getD dest.toNat []) ∨
+    ∃ e, reconstruct env be i frags (80 + blockSize i data.length) dest = .error (.rc e) ∧ e < 0 := by
+  by_cases hr : 0 ≤ dest ∧ dest < ((i.k + i.m : Nat) : Int)
+  · exact reconstruct_sound env be i data enc frags hE hbs hok henc hsub hS hneg dest hr.1 hr.2
+  · right
+    refine ⟨-EINVALIDPARAMS, reconstruct_range env be i frags _ dest (by omega), by decide⟩
+
+theorem rs_decode_errors_negative (k m : Nat) (d p : List Bytes) (ms : List Nat) (b : Nat) (e : Int)
+    (h : (rsBackend (genEntry k) k m).decode d p ms b = .error (.rc e)) : e < 0 := by
+  simp only [rsBackend, liftOpt] at h
+  split at h <;> cases h
+
+theorem rs_reconstruct_errors_negative (k m : Nat) (d p : List Bytes) (ms : List Nat) (dst b : Nat) (e : Int)
+    (h : (rsBackend (genEntry k) k m).reconstruct d p ms dst b = .error (.rc e)) : e < 0 := by
+  simp only [rsBackend, liftOpt] at h
+  split at h <;> cases h
+
+theorem decode_exact_or_error_rs (env : Env) (k m ct : Nat) (hk : 1 ≤ k) (hkm : k + m ≤ 32) (hct : ct < 256)
+    (hlv : env.libver < 2 ^ 32) (hl0 : env.libver ≠ 0)
+    (data : Bytes) (hlen : data.length < 2 ^ 31 - 2 ^ 12) (enc frags : List Bytes)
+    (henc : encode env (rsBackend (genEntry k) k m) (rsInst k m ct) data = .ok enc)
+    (hsub : ∀ f ∈ frags, f ∈ enc) (force : Bool) :
+    decode env (rsBackend (genEntry k) k m) (rsInst k m ct) frags (80 + blockSize (rsInst k m ct) data.length) force = .ok data ∨
+    ∃ e, decode env (rsBackend (genEntry k) k m) (rsInst k m ct) frags (80 + blockSize (rsInst k m ct) data.length) force
+        = .error (.rc e) ∧ e < 0 :=
+  decode_exact_or_error env _ (rsInst k m ct) data enc frags (rs_encodeOK k m) (rs_decodeSound (by omega))
+    (rs_decode_errors_negative k m) (blockSize_even _ _ hk rfl)
+    (rs_frontOK env k m ct data.length hk hkm hct hlv hl0 hlen) henc hsub force
+
+theorem reconstruct_exact_or_error_rs (env : Env) (k m ct : Nat) (hk : 1 ≤ k) (hkm : k + m ≤ 32) (hct : ct < 256)
+    (hlv : env.libver < 2 ^ 32) (hl0 : env.libver ≠ 0)
+    (data : Bytes) (hlen : data.length < 2 ^ 31 - 2 ^ 12) (enc frags : List Bytes)
+    (henc : encode env (rsBackend (genEntry k) k m) (rsInst k m ct) data = .ok enc)
+    (hsub : ∀ f ∈ frags, f ∈ enc) (dest : Int) :
+    reconstruct env (rsBackend (genEntry k) k m) (rsInst k m ct) frags (80 + blockSize (rsInst k m ct) data.length) dest
+        = .ok (enc.getD dest.toNat []) ∨
+    ∃ e, reconstruct env (rsBackend (genEntry k) k m) (rsInst k m ct) frags
+        (80 + blockSize (rsInst k m ct) data.length) dest = .error (.rc e) ∧ e < 0 :=
+  reconstruct_exact_or_error env _ (rsInst k m ct) data enc frags (rs_encodeOK k m) (rs_decodeSound (by omega))
+    (rs_reconstruct_errors_negative k m) (blockSize_even _ _ hk rfl)
+    (rs_frontOK env k m ct data.length hk hkm hct hlv hl0 hlen) henc hsub dest
+
+/-- non-vacuity: with two of three fragments gone, (2,1) decode reports an error. -/
+example :
+    (let env : Env := { libver := 0x010604, legacy := false }
+     match encode env (rsBackend (genEntry 2) 2 1) (rsInst 2 1 2) [1, 2, 3, 4, 5] with
+     | .ok enc =>
+       (match decode env (rsBackend (genEntry 2) 2 1) (rsInst 2 1 2) (enc.drop 2) 84 false with
+        | .error (.rc e) => decide (e < 0)
+        | _ => false)
+     | .error _ => false) = true := by
+  decide +kernel
+
+#print axioms decode_exact_or_error
+#print axioms reconstruct_exact_or_error
+#print axioms decode_exact_or_error_rs
+#print axioms reconstruct_exact_or_error_rs
 end LecProps.C02
